@@ -1,5 +1,5 @@
 SPEC = {
-    'id': 'C08', 'harness': 'hC08', 'coq_dir': 'C08', 'claimed': False,
+    'id': 'C08', 'harness': 'hC08', 'coq_dir': 'C08', 'claimed': True,
     'theorems': ['C08_refines_partial', 'C08_list_agrees_with_get', 'C08_refines_refuted'],
     'check_imports': 'From Coq Require Import List NArith ZArith String Ascii Bool.\nFrom C33 Require Import Lib.Harness C07.Model C07.Check C08.Model.\n',
     'allowed_axioms': [],
